@@ -67,6 +67,7 @@ class Params:
         self.error_rate = 0.15      # how often error-prone shapes are kept
         self.call_bias = 0.0        # extra probability of a procedure call
         self.min_procs = 0
+        self.probe_rate = 0.0       # debugger probes: PRINT "@@"; <exprs>
         for k, v in kw.items():
             if k == 'features':
                 self.features.update(v)
@@ -821,6 +822,10 @@ class Gen:
             s = self.call_sub(depth)
             if s is not None:
                 return [s]
+        if self.p.probe_rate and self.chance(self.p.probe_rate):
+            s = self.probe_stmt()
+            if s is not None:
+                return [s]
         r = self.i(0, 29)
         if r <= 6:
             return [self.assign()]
@@ -891,6 +896,78 @@ class Gen:
         if n and self.chance(0.25):
             items.append(self.pick(';,'))
         # no two adjacent expressions
+        return A.Print(items)
+
+    # probes: PRINT "@@"; e1; e2 ... where every e is built only from
+    # variables, array elements, record fields, constants, literals and
+    # operators (no calls) - the expressions a debugger can evaluate
+    def probe_atom(self):
+        r = self.i(0, 9)
+        if r <= 6:
+            cands = []
+            for v in self.visible_vars().values():
+                if v.kind == 'param_array':
+                    continue
+                if A.is_rec(v.t):
+                    for path, ft in self.rec_leaves(v.t):
+                        cands.append((v, path, ft))
+                else:
+                    cands.append((v, (), v.t))
+            if cands:
+                v, path, ft = self.pick(cands)
+                idx = []
+                if v.dims is not None:
+                    idx = [self.int_const_expr(self.i(lo, hi))
+                           for lo, hi in v.dims]
+                    self.note('probe_array_element')
+                    if v.dynamic:
+                        self.note('probe_dynamic_array')
+                if path:
+                    self.note('probe_field')
+                self.note('probe_' + v.kind)
+                return A.LV(v.name, idx, list(path), ft)
+        if r <= 8:
+            cs = self.visible_consts()
+            if cs:
+                name = self.pick(sorted(cs))
+                self.note('probe_const')
+                return A.ConstRef(name, cs[name][0])
+        t = self.pick('%&!#$' if self.feat('strings') else '%&!#')
+        return self.strlit() if t == '$' else self.lit(t)
+
+    def probe_expr(self):
+        a = self.probe_atom()
+        if self.chance(0.6):
+            return a
+        b = None
+        for _ in range(4):
+            b = self.probe_atom()
+            if (a.t == '$') == (b.t == '$'):
+                break
+        else:
+            return a
+        if a.t == '$':
+            op = self.pick(['+', '=', '<', '>=', '<>'])
+            return A.Bin(op, a, b, '$' if op == '+' else '%')
+        wide = max(a.t, b.t, key='%&!#'.index)
+        op = self.pick(['+', '-', '*', '=', '<', '>', '<=', '<>', 'AND',
+                        'OR', 'neg', 'NOT'])
+        if op == 'neg':
+            return A.Un('neg', a, a.t)
+        if op == 'NOT':
+            return A.Un('NOT', a, a.t if a.t in '%&' else '&')
+        if op in ('+', '-', '*'):
+            return A.Bin(op, a, b, wide)
+        if op in ('AND', 'OR'):
+            return A.Bin(op, a, b, wide if wide in '%&' else '&')
+        return A.Bin(op, a, b, '%')
+
+    def probe_stmt(self):
+        items = [A.Str('@@')]
+        for _ in range(self.i(1, 3)):
+            items.append(';')
+            items.append(self.probe_expr())
+        self.note('probe')
         return A.Print(items)
 
     def print_using(self):
